@@ -103,11 +103,26 @@ def close(a, b, tol=1e-9):
     return abs(a - b) <= tol * max(1.0, abs(a), abs(b))
 
 
+def laid_out(c):
+    """the initial average with the same numbers in another memory layout (Fortran order / a strided view): the step
+    must not depend on it"""
+    if C_LAYOUT[0] == 'F' and c.ndim == 2:
+        return np.asfortranarray(c)
+    if C_LAYOUT[0] == 'strided':
+        big = np.zeros((2 * len(c),) + c.shape[1:], dtype=c.dtype)
+        big[::2] = c
+        return big[::2]
+    return c.copy()
+
+
 def step(series, c, mask, use_c, opts, c_py=None):
     with contextlib.redirect_stdout(io.StringIO()):
         if use_c:
-            return np.asarray(dtw_barycenter.dba_loop(series, c=c.copy(), mask=mask, max_it=1, thr=None, use_c=True, nb_prob_samples=0, **opts))
-        return np.asarray(dtw_barycenter.dba(series, c_py if c_py is not None else c.copy(), mask=mask, use_c=False, **opts))
+            return np.asarray(dtw_barycenter.dba_loop(series, c=laid_out(c), mask=mask, max_it=1, thr=None, use_c=True, nb_prob_samples=0, **opts))
+        return np.asarray(dtw_barycenter.dba(series, c_py if c_py is not None else laid_out(c), mask=mask, use_c=False, **opts))
+
+
+C_LAYOUT = [None]   # memory layout of the initial average handed to the engines (None = C-contiguous copy)
 
 
 C_PY = [None]       # the initial average as handed to the Python engine when it is not the float array (int list / int array)
@@ -115,12 +130,13 @@ C_PY = [None]       # the initial average as handed to the Python engine when it
 
 def report(route, series, c, mask, opts, what, **extra):
     problems.append(dict(route=route, series=[np.asarray(s).tolist() for s in series], c=np.asarray(c).tolist(),
-                         mask=[bool(x) for x in mask], opts=opts, what=what, **extra))
+                         mask=[bool(x) for x in mask], opts=opts, what=what, c_layout=C_LAYOUT[0], **extra))
 
 
 for it in range(n):
     nd = rng.choice([1, 1, 2, 3])
-    ns = rng.randint(1, 5)
+    # mostly few series; sometimes more than eight, so that the bit mask of the C routines spans a second byte
+    ns = rng.randint(1, 5) if rng.random() < 0.85 else rng.randint(9, 11)
     equal = rng.random() < 0.5
     ln = rng.randint(2, 5)
 
@@ -136,6 +152,7 @@ for it in range(n):
         mask[rng.randrange(ns)] = True
     c = mk(rng.randint(2, 5)) if rng.random() < 0.5 else np.array(lst[int(np.argmax(mask))], dtype=np.double).copy()
     C_PY[0] = None
+    C_LAYOUT[0] = rng.choice([None, None, 'F', 'strided'])
     if rng.random() < 0.25:
         # an integer-typed initial average (list of ints or int array): the result is still a mean of floats
         c = np.round(c).astype(np.double)
